@@ -88,8 +88,71 @@ class _Rewrite(ast.NodeTransformer):
         return node
 
 
+class _MatchToIf(ast.NodeTransformer):
+    """match <subject>: case <value patterns> [if guard]: ...   ->   the equivalent if / elif chain.
+    Supported patterns: literal / dotted-name values, None / True / False, alternatives of those, the wildcard `_` and a
+    bare capture name; anything else (sequence, mapping, class patterns) is left in place and refused by the analyses."""
+
+    def __init__(self):
+        self.count = 0
+
+    def _test(self, subject: ast.expr, pat) -> Optional[ast.expr]:
+        import copy
+        if isinstance(pat, ast.MatchValue):
+            return ast.Compare(left=copy.deepcopy(subject), ops=[ast.Eq()], comparators=[pat.value])
+        if isinstance(pat, ast.MatchSingleton):
+            return ast.Compare(left=copy.deepcopy(subject), ops=[ast.Is()], comparators=[ast.Constant(value=pat.value)])
+        if isinstance(pat, ast.MatchOr):
+            parts = [self._test(subject, x) for x in pat.patterns]
+            if any(x is None for x in parts):
+                return None
+            if all(isinstance(x, ast.Compare) and isinstance(x.ops[0], ast.Eq) for x in parts):
+                return ast.Compare(left=copy.deepcopy(subject), ops=[ast.In()], comparators=[ast.Tuple(elts=[x.comparators[0] for x in parts], ctx=ast.Load())])
+            return ast.BoolOp(op=ast.Or(), values=parts)
+        return None
+
+    def visit_Match(self, node):
+        node = self.generic_visit(node)
+        subject = node.subject
+        if not isinstance(subject, (ast.Name, ast.Attribute, ast.Constant)):
+            return node          # evaluating the subject twice could repeat an effect
+        chain: List = []
+        for case in node.cases:
+            pat = case.pattern
+            bind = None
+            if isinstance(pat, ast.MatchAs) and pat.pattern is None:
+                test = ast.Constant(value=True)
+                if pat.name is not None:
+                    bind = ast.Assign(targets=[ast.Name(id=pat.name, ctx=ast.Store())], value=subject)
+            else:
+                test = self._test(subject, pat)
+                if test is None:
+                    return node
+            if case.guard is not None:
+                if bind is not None:
+                    return node
+                test = case.guard if isinstance(test, ast.Constant) else ast.BoolOp(op=ast.And(), values=[test, case.guard])
+            chain.append((test, ([bind] if bind is not None else []) + list(case.body)))
+        result: List[ast.stmt] = []
+        for test, body in reversed(chain):
+            if isinstance(test, ast.Constant) and test.value is True:
+                result = body
+            else:
+                result = [ast.If(test=test, body=body, orelse=result)]
+        self.count += 1
+        out = result if result else [ast.Pass()]
+        return [ast.fix_missing_locations(ast.copy_location(x, node)) for x in out]
+
+
 def desugar(trees: Dict[str, ast.Module]) -> int:
     n = 0
+    if hasattr(ast, "Match"):
+        for name, tree in trees.items():
+            if any(isinstance(x, ast.Match) for x in ast.walk(tree)):
+                mt = _MatchToIf()
+                mt.visit(tree)
+                ast.fix_missing_locations(tree)
+                n += mt.count
     for name, tree in trees.items():
         src = [x for x in ast.walk(tree) if isinstance(x, ast.Call) and isinstance(x.func, ast.Name) and x.func.id in ("getattr", "setattr")]
         if not src:
